@@ -927,7 +927,7 @@ func TestVerifC38Sessions(t *testing.T) {
 	r.Note("configured", map[string]any{"ttl": ttl.String(), "limit": limit, "window": window.String()})
 	confirmed := false
 
-	n := r.N(200, 2500)
+	n := r.N(120, 2500)
 	for ci := 0; ci < n; ci++ {
 		rng := r.Rand(ci)
 		synctest.Test(t, func(t *testing.T) {
